@@ -90,7 +90,7 @@ def build_ocaml():
     srcs = [os.path.join(VERIF, "ocaml", f) for f in os.listdir(os.path.join(VERIF, "ocaml"))
             if f.endswith((".ml", ".v", ".sh")) and f not in ("model.ml",)]
     vos = [os.path.join(COQ, f) for f in os.listdir(COQ) if f.endswith(".vo")]
-    targets = [os.path.join(BUILD, t) for t in ("flatrun",)]
+    targets = [os.path.join(BUILD, t) for t in ("flatrun", "treerun")]
     if all(os.path.exists(t) for t in targets) and \
             min(os.path.getmtime(t) for t in targets) > newest_mtime(srcs + vos):
         return True, "up to date"
@@ -319,7 +319,15 @@ def sig_nilmerge_iter(case, mis):
     return all(k in ("model:iter", "spec:iter") or re.match(r"(model|spec):held\d+", k) for k in mis["kinds"])
 
 
-SIGNATURES = {"nilmerge-iter": sig_nilmerge_iter}
+def sig_child_existence(case, mis):
+    """Zero gauges while the store does not yet reflect the mere creation of an empty child
+    collection or the deletion of one (no key's value differs)."""
+    return "tspec:zero-gauges-child-existence" in mis["kinds"] and \
+        "tspec:zero-gauges-unpersisted" not in mis["kinds"] and \
+        not any(k.startswith("tmodel:") for k in mis["kinds"])
+
+
+SIGNATURES = {"nilmerge-iter": sig_nilmerge_iter, "zero-gauges-child-existence": sig_child_existence}
 
 
 def match_known(pid, case, mis, known):
